@@ -5,6 +5,7 @@ _BY_PROP = {
     'C08': ('ptype', 'PtypeScenario'),
     'C09': ('fft', 'FftScenario'),
     'C10': ('purity', 'PurityScenario'),
+    'C13': ('spectrum_arith', 'SpectrumArithScenario'),
     'C15': ('spectrum_edit', 'SpectrumEditScenario'),
 }
 _CACHE = {}
